@@ -582,6 +582,9 @@ fill_yly_yd(
 		    !((wd_mask >> yd_get_wday(y, yd)) & 0b1U)) {
 			/* weekday is masked out */
 			continue;
+		} else if (UNLIKELY(yd > 365 + !(y % 4U))) {
+			/* no such day in Y */
+			continue;
 		} else if (!(md = yd_to_md(y, yd)).m) {
 			/* something's wrong again */
 			continue;
